@@ -953,3 +953,62 @@ Definition same_component (n : str) (a b : table) : bool :=
   | None, None => true
   | _, _ => false
   end.
+
+(* ------------------------------------------------------------------ *)
+(* C07, the clause "with the mapped type or a reference" read on the DECLARATIONS: a usage of a type
+   the project declares is documented by a reference to that type's component whatever the type is
+   CALLED (a struct the project calls Duration, Int, Time ... is not the predeclared / library type
+   of that name).  [schema_of_texpr] describes the emitters, which dispatch on the bare identifier
+   (ToOpenApiType); [schema_by_text] is what the text asks for.  They coincide on type expressions
+   whose declared names the emitters give no meaning to ([unshadowed], SchemaProofs). *)
+
+(* (the element type of a byte string is recognised as the emitters do, by its printed name) *)
+Fixpoint schema_by_text (t : texpr) : schema :=
+  match t with
+  | TPrim n => leaf_schema n
+  | TTime => SType (s "string") (s "date-time")
+  | TNamed _ n => SRef n
+  | TPtr e => schema_by_text e
+  | TSlice e => if str_eqb (type_string e) (s "byte") then SType (s "string") (s "base64")
+                else SArr (schema_by_text e)
+  | TMap _ v => SMap (schema_by_text v)
+  end.
+
+Definition field_schema_text (f : field) : schema :=
+  apply_format (f_validate f) (f_type f) (schema_by_text (f_type f)).
+
+(* [struct_by_text] with the declared types read as declared types *)
+Definition struct_by_text_strict (fs : list field) (c : comp) : bool :=
+  let vis := filter (fun f => negb (f_embedded f) && is_exported (f_name f) && negb (json_dash f)) fs in
+  let emb := filter (fun f => f_embedded f && negb (is_error_field f)) fs in
+  forallb (fun p => existsb (fun f => str_eqb (fst p) (json_name_text f) &&
+                                      schema_eqb (snd p) (field_schema_text f)) vis) (k_props c) &&
+  list_eqb schema_eqb (k_allof c) (map (fun f => schema_by_text (f_type f)) emb).
+
+Definition decl_by_text_strict (d : decl) (c : comp) : bool :=
+  match d_body d with
+  | DStruct fs => struct_by_text_strict fs c
+  | _ => true
+  end.
+
+(* sub-claim 5 of the C07 oracle: every reachable struct documents its fields of declared types by
+   references to the components of those types *)
+Definition prop_C07_refs (u : universe) (d : doc) : bool :=
+  let rs := reachable_set u in
+  forallb (fun dc => match lookup (doc_comps d) (d_name dc) with
+                     | Some c => decl_by_text_strict dc c
+                     | None => true       (* a missing component is sub-claim 1 *)
+                     end) (filter (reachable_in rs) (u_decls u)).
+
+(* a name the emitters read as the name of a declared type: they document it by a reference to it *)
+Definition name_unshadowed (n : str) : bool :=
+  match leaf_schema n with SRef m => str_eqb m n | _ => false end.
+
+Fixpoint unshadowed (t : texpr) : bool :=
+  match t with
+  | TNamed _ n => name_unshadowed n
+  | TPtr e => unshadowed e
+  | TSlice e => unshadowed e
+  | TMap _ v => unshadowed v
+  | _ => true
+  end.
